@@ -4,6 +4,7 @@ CONSTANTS
   MaxChanges = 3
   MaxFails = 2
   MaxOther = 1
+  MaxRefresh = 1
   RoundSize = 1
   MinB = 1
   MaxB = 2
